@@ -491,4 +491,146 @@ Section Complete.
       rewrite (sufl_suf names0 c Hsuf). exact Hz.
     Qed.
   End Star.
+
+  (* ---------------------------------------------------------- the evaluator *)
+  Lemma base_done pos e H first c s1 s' X :
+    Site pos (NElem e) H -> Post s1 s' -> PDI X s' ->
+    base_key_ok F m names0 e H (c_obj c, pos, List.length (c_names c), first) = true ->
+    match e with EBr _ | EStar _ => False | _ => True end ->
+    Post s1 s' /\ PDI X s' /\ Good (c_obj c, pos, List.length (c_names c), first).
+  Proof.
+    intros Hs P D Hb He. split; [exact P|]. split; [exact D|].
+    eapply Good_intro; [exact Hs | reflexivity|]. destruct e; simpl in *; try exact Hb; contradiction.
+  Qed.
+
+  Lemma main :
+    (forall e pos H first c k s s' U X,
+        Site pos (NElem e) H -> Pre U X c s -> KC k H U ->
+        ev_elem F m true pos e first c k s = (RNone, s') -> incl (vis s') V ->
+        Res s s' X (c_obj c, pos, List.length (c_names c), first)) /\
+    (forall p q sq Hq i sq1 j first c k s s' U X,
+        Site q (NSeq sq) Hq -> alts_from sq i sq1 -> elems_from (head_path sq1) j p ->
+        Pre U X c s -> KC k Hq U ->
+        ev_path F m true q i j p first c k s = (RNone, s') -> incl (vis s') V ->
+        Res s s' X (c_obj c, j :: i :: q, List.length (c_names c), first)) /\
+    (forall sq1,
+        (forall q sq Hq i first c k s s' U X,
+            Site q (NSeq sq) Hq -> alts_from sq i sq1 -> Pre U X c s -> KC k Hq U ->
+            ev_alts F m true q i sq1 first c k s = (RNone, s') -> incl (vis s') V ->
+            Post s s' /\ PDI X s' /\
+            firsts_in (vis s') q i sq1 (c_obj c) (List.length (c_names c)) first = true) /\
+        (forall q Hq first c k s s' U X,
+            Site q (NSeq sq1) Hq -> Pre U X c s -> KC k Hq U ->
+            ev_seq F m true q sq1 first c k s = (RNone, s') -> incl (vis s') V ->
+            Res s s' X (c_obj c, q, List.length (c_names c), first))).
+  Proof.
+    destruct (ev_vmono F m true) as [VMe [VMp VMs]].
+    apply rrel_mutind.
+    - (* EParent *)
+      intros T0 pos H first c k s s' U X Hs [Hsuf [Hub [Hx Hpd]]] [Hvm Hk] Hev Hi. simpl in Hev.
+      eapply guard_case; [exact Hev | exact Hpd|]. intros s1 Ev Ep En Hb. cbv beta in Hb.
+      pose proof (Pre_eq U X c s s1 Ep En (conj Hsuf (conj Hub (conj Hx Hpd)))) as [_ [Hub1 [Hx1 Hpd1]]].
+      destruct (apply_parent F m T0 (c_obj c)) as [[p|]|] eqn:E; [| |discriminate].
+      + destruct (Hk _ s1 s' X (Suf_same c p (c_path c) Hsuf) Hub1 Hx1 Hpd1 Hb Hi) as [P [D Hc]]. simpl in Hc.
+        eapply base_done; eauto; [|exact I]. simpl. rewrite E, (sufl_suf names0 c Hsuf). exact Hc.
+      + inversion Hb; subst. eapply base_done; eauto; [apply Post_refl | | exact I]. simpl. rewrite E. reflexivity.
+    - (* ENav *)
+      intros name consume fixed pos H first c k s s' U X Hs [Hsuf [Hub [Hx Hpd]]] Hkc Hev Hi. simpl in Hev.
+      eapply guard_case; [exact Hev | exact Hpd|]. intros s1 Ev Ep En Hb. cbv beta in Hb.
+      pose proof (Pre_eq U X c s s1 Ep En (conj Hsuf (conj Hub (conj Hx Hpd)))) as [_ [Hub1 [Hx1 Hpd1]]].
+      destruct (apply_nav F m name consume fixed first c) as [l| |] eqn:E; try discriminate.
+      assert (Hsl : forall c', In c' l -> Suf names0 c').
+      { intros c' Hc'. eapply Suf_step; [eapply apply_nav_spec; eauto | exact Hsuf]. }
+      destruct (iter_outs_inv k H U l Hkc s1 s' X Hsl Hub1 Hx1 Hpd1 Hb Hi) as [P [D Hl]].
+      eapply base_done; eauto; [|exact I]. simpl.
+      destruct c as [o ns tr]. simpl in *.
+      destruct (apply_nav_repath F m name consume fixed first o ns tr [] l E) as [l' [E' Hmap]].
+      pose proof (sufl_suf names0 (mk o ns tr) Hsuf) as Hsf. simpl in Hsf. rewrite Hsf, E'.
+      apply forallb_forall. intros c' Hc'.
+      assert (Hin : In (on c') (map on l)) by (rewrite <- Hmap; apply in_map; exact Hc').
+      apply in_map_iff in Hin as [c2 [Eq Hc2]]. unfold on in Eq. injection Eq as Eo En'.
+      rewrite <- Eo, <- En'. apply Hl. exact Hc2.
+    - (* EDots *)
+      intros n pos H first c k s s' U X Hs [Hsuf [Hub [Hx Hpd]]] [Hvm Hk] Hev Hi. simpl in Hev.
+      eapply guard_case; [exact Hev | exact Hpd|]. intros s1 Ev Ep En Hb. cbv beta in Hb.
+      pose proof (Pre_eq U X c s s1 Ep En (conj Hsuf (conj Hub (conj Hx Hpd)))) as [_ [Hub1 [Hx1 Hpd1]]].
+      destruct (apply_dots m n (c_obj c)) as [p|] eqn:E.
+      + destruct (Hk _ s1 s' X (Suf_same c p (c_path c) Hsuf) Hub1 Hx1 Hpd1 Hb Hi) as [P [D Hc]]. simpl in Hc.
+        eapply base_done; eauto; [|exact I]. simpl. rewrite E, (sufl_suf names0 c Hsuf). exact Hc.
+      + inversion Hb; subst. eapply base_done; eauto; [apply Post_refl | | exact I]. simpl. rewrite E. reflexivity.
+    - (* EBr *)
+      intros sq [_ IH] pos H first c k s s' U X Hs [Hsuf [Hub [Hx Hpd]]] Hkc Hev Hi. simpl in Hev.
+      eapply guard_case; [exact Hev | exact Hpd|]. intros s1 Ev Ep En Hb. cbv beta in Hb.
+      pose proof (Pre_eq U X c s s1 Ep En (conj Hsuf (conj Hub (conj Hx Hpd)))) as Hpre1.
+      destruct (IH (0 :: pos) H first c k s1 s' U X (S_br _ _ _ Hs) Hpre1 Hkc Hb Hi) as [P [D Hin]].
+      split; [exact P|]. split; [exact D|].
+      eapply Good_intro; [exact Hs | reflexivity|]. simpl. apply memk_of_In. apply Hi. exact Hin.
+    - (* EStar *)
+      intros sq [_ IH] pos H first c k s s' U X Hs [Hsuf [Hub [Hx Hpd]]] Hkc Hev Hi. simpl in Hev.
+      set (s0 := {| vis := vis s; pds := pds s; nxt := S (nxt s); hit := hit s |}) in *.
+      assert (Hpre0 : Pre (U' U (nxt s)) X c s0).
+      { split; [exact Hsuf|]. split; [|split].
+        - intros u [Hu| ->]; simpl; [specialize (Hub u Hu); lia | lia].
+        - intros e He. destruct (Hx e He) as [A B]. simpl. split; [|lia]. intros [Hu|Hu]; [apply A; exact Hu | lia].
+        - exact Hpd. }
+      destruct (gfz_inv pos sq H Hs U k Hkc (nxt s) Hub
+                        (fun f c1 k1 s1 => ev_seq F m true (0 :: pos) sq f c1 k1 s1)
+                        (fun f c1 k1 Hk1 => proj2 (VMs sq) (0 :: pos) f c1 k1 Hk1)
+                        (fun f c1 k1 s1 s1' X1 Hp1 Hk1 He1 Hi1 =>
+                           IH (0 :: pos) (hnext V pos) f c1 k1 s1 s1' (U' U (nxt s)) X1 (S_star _ _ _ Hs) Hp1 Hk1 He1 Hi1)
+                        F first c s0 s' X Hpre0 Hev Hi) as [[A [B C]] [D Hin]].
+      split; [|split; [exact D | exact Hin]].
+      split; [exact A|]. split; [simpl in B; lia | exact C].
+    - (* P1 *)
+      intros e IH q sq Hq i sq1 j first c k s s' U X Hs Ha He Hpre Hkc Hev Hi. simpl in Hev.
+      eapply IH; eauto. eapply S_last; eauto.
+    - (* PCons *)
+      intros e IHe p IHp q sq Hq i sq1 j first c k s s' U X Hs Ha He Hpre Hkc Hev Hi. simpl in Hev.
+      eapply IHe; [eapply S_mid; eauto | exact Hpre | | exact Hev | exact Hi].
+      split; [intros c1; apply VMp; exact (proj1 Hkc)|].
+      intros c1 s1 s1' X1 Hs1 Hub1 Hx1 Hpd1 Hev1 Hi1.
+      destruct (IHp q sq Hq i sq1 (S j) false c1 k s1 s1' U X1 Hs Ha (ef_S _ _ _ _ He)
+                    (conj Hs1 (conj Hub1 (conj Hx1 Hpd1))) Hkc Hev1 Hi1) as [P [D Hin]].
+      split; [exact P|]. split; [exact D|]. unfold hnext. apply memk_of_In. apply Hi1. exact Hin.
+    - (* S1 *)
+      intros p IHp. split.
+      + intros q sq Hq i first c k s s' U X Hs Ha Hpre Hkc Hev Hi. simpl in Hev.
+        destruct (IHp q sq Hq i (S1 p) 0 first c k s s' U X Hs Ha (ef_0 _) Hpre Hkc Hev Hi) as [P [D Hin]].
+        split; [exact P|]. split; [exact D|]. simpl. apply memk_of_In. exact Hin.
+      + intros q Hq first c k s s' U X Hs [Hsuf [Hub [Hx Hpd]]] Hkc Hev Hi. simpl in Hev.
+        eapply guard_case; [exact Hev | exact Hpd|]. intros s1 Ev Ep En Hb. cbv beta in Hb.
+        pose proof (Pre_eq U X c s s1 Ep En (conj Hsuf (conj Hub (conj Hx Hpd)))) as Hpre1.
+        destruct (IHp q (S1 p) Hq 0 (S1 p) 0 first c k s1 s' U X Hs (af_0 _) (ef_0 _) Hpre1 Hkc Hb Hi) as [P [D Hin]].
+        split; [exact P|]. split; [exact D|].
+        eapply Good_intro; [exact Hs | reflexivity|]. simpl. apply memk_of_In. apply Hi. exact Hin.
+    - (* SCons *)
+      intros p IHp sq' [IHa _]. split.
+      + intros q sq Hq i first c k s s' U X Hs Ha Hpre Hkc Hev Hi. simpl in Hev.
+        destruct (ev_path F m true q i 0 p first c k s) as [r s1] eqn:E. destruct r; try discriminate.
+        assert (Hi1 : incl (vis s1) V).
+        { pose proof (proj1 (VMs sq') q (S i) first c k (proj1 Hkc) s1) as [Hm _]. rewrite Hev in Hm.
+          eapply incl_tran; eauto. }
+        destruct (IHp q sq Hq i (SCons p sq') 0 first c k s s1 U X Hs Ha (ef_0 _) Hpre Hkc E Hi1) as [P1 [D1 Hin1]].
+        destruct Hpre as [Hsuf Hrest].
+        destruct (IHa q sq Hq (S i) first c k s1 s' U X Hs (af_S _ _ _ _ Ha)
+                      (Pre_step U X c c s s1 P1 D1 Hsuf (conj Hsuf Hrest)) Hkc Hev Hi) as [P2 [D2 Hf]].
+        split; [eapply Post_trans; eauto|]. split; [exact D2|]. simpl.
+        apply andb_true_iff. split; [|exact Hf]. apply memk_of_In. apply (proj1 P2). exact Hin1.
+      + intros q Hq first c k s s' U X Hs [Hsuf [Hub [Hx Hpd]]] Hkc Hev Hi. simpl in Hev.
+        eapply guard_case; [exact Hev | exact Hpd|]. intros s1 Ev Ep En Hb. cbv beta in Hb.
+        pose proof (Pre_eq U X c s s1 Ep En (conj Hsuf (conj Hub (conj Hx Hpd)))) as Hpre1.
+        destruct (ev_path F m true q 0 0 p first c k s1) as [r s2] eqn:E. destruct r; try discriminate.
+        assert (Hi2 : incl (vis s2) V).
+        { pose proof (proj1 (VMs sq') q 1 first c k (proj1 Hkc) s2) as [Hm _]. rewrite Hb in Hm.
+          eapply incl_tran; eauto. }
+        destruct (IHp q (SCons p sq') Hq 0 (SCons p sq') 0 first c k s1 s2 U X Hs (af_0 _) (ef_0 _) Hpre1 Hkc E Hi2)
+          as [P1 [D1 Hin1]].
+        destruct (IHa q (SCons p sq') Hq 1 first c k s2 s' U X Hs (af_S _ _ _ _ (af_0 _))
+                      (Pre_step U X c c s1 s2 P1 D1 Hsuf Hpre1) Hkc Hb Hi) as [P2 [D2 Hf]].
+        split; [eapply Post_trans; eauto|]. split; [exact D2|].
+        eapply Good_intro; [exact Hs | reflexivity|]. simpl.
+        apply andb_true_iff. split.
+        * apply memk_of_In. apply Hi. apply (proj1 P2). exact Hin1.
+        * eapply firsts_in_incl; [exact Hi | exact Hf].
+  Qed.
 End Complete.
